@@ -9,6 +9,10 @@ CONSTANTS
   IdsIdentifyContent = TRUE
   IncOf <- MCIncOf
   StatusInc = 0
+  HostSpellsOddly = FALSE
+  FetchCanonicalises = FALSE
+  PrunesOnStart = FALSE
+  MaxKept = 1
   LocalNeedsIncarnationMatch = FALSE
   KeepHigherIncarnation = FALSE
   ReuseUnattested = TRUE
